@@ -207,3 +207,105 @@ Definition spec_ok_nomail (raw : bytes) (ls : list bytes) : bool :=
 
 Definition spec_ok_literal (func : bytes) (ls : list bytes) : bool :=
   literal_reply_ok (concat ls) && existsb (bytes_eqb (concat ls)) (literal_model func).
+
+(** ** replies assembled from several calls (Gen/GenReplies.v: reply_sequences) *)
+
+(** continuation lines only: every line "code-text CRLF" *)
+Fixpoint open_scan (fuel : nat) (code : bytes) (s : list sym) : bool :=
+  match fuel with
+  | O => false
+  | S f =>
+      match s with
+      | [] => true
+      | SByte a :: SByte b :: SByte c :: SByte sep :: body =>
+          bytes_eqb [a; b; c] code && N.eqb sep DASH &&
+          match body_scan body 0 with
+          | Some (ub, rest) => Nat.leb ub 506 && open_scan f code rest
+          | None => false
+          end
+      | _ => false
+      end
+  end.
+
+Definition open_ok (code pre : bytes) : bool :=
+  let s := syms_of_lit pre in open_scan (S (length s)) code s.
+
+Fixpoint split_last (ps : list piece) : option (list piece * piece) :=
+  match ps with
+  | [] => None
+  | [p] => Some ([], p)
+  | p :: r => match split_last r with Some (a, l) => Some (p :: a, l) | None => None end
+  end.
+
+Fixpoint lits_of (ps : list piece) : option (list bytes) :=
+  match ps with
+  | [] => Some []
+  | PLit b :: r => option_map (cons b) (lits_of r)
+  | _ :: _ => None
+  end.
+
+(** all pieces but the last are literals made of continuation lines with the code of the last
+    piece; the last piece ends the reply *)
+Definition seq_ok (ps : list piece) : bool :=
+  match split_last ps with
+  | Some (front, last) =>
+      match lits_of front with
+      | Some pre =>
+          match last with
+          | PLit b => literal_reply_ok (concat pre ++ b)
+          | PWriten t =>
+              template_ok t &&
+              match t with
+              | Lit s0 :: _ => open_ok (firstn 3 s0) (concat pre)
+              | _ => false
+              end
+          | PMulti t =>
+              ml_template_ok t &&
+              match syms_of_tpl t with
+              | Some s => sym_ok (syms_of_lit (concat pre) ++ s)
+              | None => false
+              end
+          end
+      | None => false
+      end
+  | None => false
+  end.
+
+(** what is claimed of such a sequence: whatever the holes of the last call hold (within their
+    classes), the octets written by all its calls together are one valid reply *)
+Definition seq_valid (ps : list piece) : Prop :=
+  exists pre last, ps = map PLit pre ++ [last] /\
+    match last with
+    | PLit b => valid_reply_stream (concat pre ++ b)
+    | PWriten t => forall args, Forall2 elem_rel t args ->
+        exists s0 parts ls, args = s0 :: parts /\ net_writen s0 parts = Ok ls
+          /\ valid_reply_stream (concat pre ++ concat ls)
+    | PMulti t => forall args, Forall2 elem_rel t args ->
+        net_write_multiline args = Ok [concat args] /\ valid_reply_stream (concat pre ++ concat args)
+    end.
+
+(** ** a stream of replies, as a session sees it (several replies one after the other) *)
+Fixpoint stream_scan (fuel : nat) (open_code : option bytes) (s : list sym) : bool :=
+  match fuel with
+  | O => false
+  | S f =>
+      match s with
+      | [] => match open_code with None => true | Some _ => false end
+      | SByte a :: SByte b :: SByte c :: SByte sep :: body =>
+          forallb is_digit [a; b; c]
+          && match open_code with None => true | Some code => bytes_eqb [a; b; c] code end
+          && match body_scan body 0 with
+             | Some (ub, rest) =>
+                 Nat.leb ub 506 &&
+                 (if N.eqb sep SP then stream_scan f None rest
+                  else if N.eqb sep DASH then stream_scan f (Some [a; b; c]) rest
+                  else false)
+             | None => false
+             end
+      | _ => false
+      end
+  end.
+
+(** zero or more complete, valid replies and nothing else *)
+Definition reply_stream_ok (b : bytes) : bool :=
+  let s := syms_of_lit b in stream_scan (S (length s)) None s.
